@@ -188,6 +188,7 @@ class World:
         self.send_msg_timing = send_msg_timing
         self.p_notwritable = p_notwritable      # (num, den) per connection per probe
         self.p_peer_stall = (0, 1)              # (num, den) per client write-readiness wait
+        self.write_cost = 0.0                   # virtual seconds every manager write takes
         self.arrival_bias = arrival_bias        # weight of "everything arrives"
         self.max_rounds = max_rounds
         # MessageManager(debug=...) is a configuration like any other: drawn per run unless given
@@ -369,6 +370,8 @@ class World:
     # ----- select as seen by the manager thread --------------------------------
     def mgr_select(self, rlist, wlist, timeout):
         net = self.net
+        if timeout is not None and timeout < 0:
+            raise ValueError("timeout must be non-negative")
         if self.baton.current is not self.mgr_task:
             # manager code running on the driver thread (construction / teardown)
             return [], list(wlist), []
